@@ -79,6 +79,10 @@ def run(ctx, report):
     report.section("flush", flush, ctx, report)
     report.section("roll-up order", rollup_order, ctx, report)
     report.section("final ends", final_ends, ctx, report)
+    # text conservation needs the duplicate filter to drop exactly the second copy of a doubled code
+    # (positioning obligations of the same automaton belong to C05)
+    from . import c05_doubling
+    report.section("doubling automaton", c05_doubling.run, ctx, report, "1", ("O-TAB",))
     report.not_decided += ["that each transmitted character appears exactly once and in order",
                            "row grouping, start < end for arbitrary streams"]
 
